@@ -23,7 +23,7 @@ def consistent(f, m, c):
     return any(c == tuple(sorted((a, b))) for a in f for b in m)
 
 
-def family_haps(gts, nchildren, recomb_at=None, flip_second=False):
+def family_haps(gts, nchildren, recomb_at=None, flip_second=False, recomb_child=None):
     """gts[variant] = (father, mother, child[, child2]) genotype strings.
     Returns per member a list of hap entries, choosing parental orientations so that each child is
     (paternal allele | maternal allele) with at most one paternal recombination at recomb_at."""
@@ -48,6 +48,8 @@ def family_haps(gts, nchildren, recomb_at=None, flip_second=False):
                         kids.append(None if cg is None else cg)
                         continue
                     want = (F[tf], M[tm])
+                    if recomb_child is not None and c != recomb_child:
+                        want = (F[0], M[1])  # only one of the children carries the recombination
                     if flip_second and c == 1:
                         want = (F[1 - tf], M[tm])  # the second child inherits the father's other haplotype
                     if tuple(sorted(want)) != cg:
@@ -137,6 +139,12 @@ def worlds(tier):
         for k_ in (2, 3):
             for rev in (False, True):
                 yield mk(seed, qnames, [ga, gb] + ([ga] if k_ == 3 else []), "all", None, {}, ped_reversed=rev, flip_second=True)
+    # a recombination in the paternal (maternal) transmission of ONE of the two children, both PED record orders
+    same = ("0/1", "0/0", "0/1", "0/1")
+    for rc, diff in ((1, ("0/1", "0/0", "0/1", "0/0")), (0, ("0/1", "0/0", "0/0", "0/1"))):
+        for rev in (False, True):
+            yield mk(seed, qnames, [same, same, diff], "all", 2, {"recombrate": 200000.0}, ped_reversed=rev, recomb_child=rc)
+            yield mk(seed, qnames, [same, same, diff, diff], "all", 2, {"recombrate": 200000.0}, ped_reversed=rev, recomb_child=rc)
     for g1 in qv:
         for g2 in qv:
             for support in ("all", "none") + (("child",) if T else ()):
@@ -146,10 +154,10 @@ def worlds(tier):
                     yield mk(seed, qnames, [g1, g2], support, None, {}, ped_reversed=rev)
 
 
-def mk(seed, names, gts, support, recomb, opts, ped_reversed=False, absent_first=False, bystander=False, flip_second=False):
+def mk(seed, names, gts, support, recomb, opts, ped_reversed=False, absent_first=False, bystander=False, flip_second=False, recomb_child=None):
     k = len(gts)
     nchildren = len(names) - 2
-    haps = family_haps(gts, nchildren, recomb, flip_second=flip_second)
+    haps = family_haps(gts, nchildren, recomb, flip_second=flip_second, recomb_child=recomb_child)
     vs = [{"pos": 60 + 40 * i, "kind": "SNV", "len": 1} for i in range(k)]
     world = {"seed": seed, "chroms": [{"name": "chrA", "length": 60 + 40 * k + 60, "variants": vs}], "samples": list(names), "haps": {n: {"chrA": haps[i]} for i, n in enumerate(names)}, "reads": [], "gts": [list(g) for g in gts]}
     who = {"none": [], "child": names[2:], "parents": names[:2], "all": names}[support]
